@@ -5,7 +5,6 @@ import (
 	"go/token"
 	"go/types"
 	"math/big"
-	"strings"
 
 	"golang.org/x/tools/go/ssa"
 )
@@ -865,8 +864,53 @@ func (fr *Frame) execClose(c string, reach string, h Heap) {
 }
 
 func (fr *Frame) execGo(x *ssa.Go, reach string, h Heap) {
-	// A spawned goroutine runs concurrently: its effects on memory it owns are
-	// not visible here.  The structural checks (spawn-disjoint, join) reason about it.
-	fr.u.assumed["go statement: spawned goroutine abstracted (see structural obligations)"] = true
-	_ = strings.TrimSpace
+	// A spawned goroutine runs concurrently: its effects on memory are not
+	// sequenced here.  What is checked at the go statement: the preconditions of the
+	// spawned function's contract (pre@spawn); what is transferred: the permission to
+	// close the channels its contract says it closes (they count as closed for the
+	// spawner from here on, so a second close or a later send by the spawner is reported).
+	u := fr.u
+	u.assumed["go statement: the spawned goroutine's effects are abstracted; cross-goroutine composition rests on channel histories (Kahn determinism, assumption K)"] = true
+	callee := x.Call.StaticCallee()
+	if callee == nil {
+		if mc, ok := x.Call.Value.(*ssa.MakeClosure); ok {
+			if f, ok := mc.Fn.(*ssa.Function); ok {
+				callee = f
+			}
+		}
+	}
+	if callee == nil {
+		return
+	}
+	ct := u.eng.lib.Contracts[callee.String()]
+	if ct == nil {
+		return
+	}
+	var args []Val
+	for _, a := range x.Call.Args {
+		if _, isLV := fr.lvs[a]; isLV {
+			args = append(args, Val{T: "0", Ty: a.Type(), S: "Int"})
+			continue
+		}
+		args = append(args, fr.valOf(a))
+	}
+	env := fr.calleeEnv(ct, callee, x.Call.Signature(), args, h, false)
+	for _, l := range ct.Lets {
+		env.vars[l.Name] = env.eval(l.Expr)
+	}
+	for _, rq := range ct.Requires {
+		if !u.active(rq.Props) {
+			continue
+		}
+		o := u.oblig("pre@spawn", fmt.Sprintf("precondition of the spawned %s: %s", shortKey(callee.String()), rq.Text), implies(reach, env.evalBool(rq.Expr)), rq.Props)
+		o.Detail = callee.String()
+	}
+	for _, m := range ct.Modifies {
+		for _, t := range fr.evalModTarget(env, m.Expr, m.Text) {
+			if t.comp == "ChClosed" && t.ref != "" && t.inSet == nil {
+				cl := u.comp(h, "ChClosed", "(Array Int Int)")
+				h["ChClosed"] = u.define("ChClosed", "(Array Int Int)", sto(cl, t.ref, "1"))
+			}
+		}
+	}
 }
